@@ -136,6 +136,9 @@ def main():
         "checks": results,
         "origin": "independent sub-agent given only the property text and a scratch worktree",
     }
+    for k, v in prev.items():
+        if k not in meta:
+            meta[k] = v
     json.dump(meta, open(os.path.join(dest, "meta.json"), "w"), indent=1)
     print("kept in", dest)
 
